@@ -3,6 +3,7 @@ import json
 import math
 import os
 import sys
+import time
 from fractions import Fraction as Fr
 
 from .. import core
@@ -26,9 +27,11 @@ META = {
                   "hence pairwise distinct and in cyclic order; every solution of the partitioned system puts each "
                   "interior vertex at the weighted average of its neighbours (weights = minus the off-diagonal Laplacian "
                   "entries, all 1/2 per face edge for uniform weights); per-corner, per-vertex and flat-mesh outputs carry "
-                  "the same coordinates; the gate rejects iff V-E+F<>1; discrete maximum principle (positive weights, "
-                  "every interior vertex linked to the border: every interior vertex lies in every half-plane containing "
-                  "the border positions). PARTIAL: the fold-free clause is Tutte/Floater's theorem, stated but NOT proved; "
+                  "the same coordinates; the gate rejects iff V-E+F<>1; convexity of the targets (circle border polygon "
+                  "strictly convex, over R; square border polygon weakly convex for every n>=3, flat only along one side); "
+                  "discrete maximum principle (positive weights - automatic for uniform weights -, every interior vertex "
+                  "linked to the border: every interior vertex lies in every closed half-plane containing the border "
+                  "positions, i.e. in their convex hull). PARTIAL: the fold-free clause is Tutte/Floater's theorem, stated but NOT proved; "
                   "what each run establishes instead, on its generated disks only, is kernel-checked evidence: an exact "
                   "rational solution of the model's system is verified (proved sound: an accepted certificate IS a solution "
                   "and its triangles are strictly co-oriented), mouette's floats agree with it to 1e-9, and all triangles of "
@@ -55,10 +58,12 @@ def gen(ctx):
 
 # ---------------------------------------------------------------------- case generation
 def gen_disk_case(rng, nb=None, mode=None, cotan=None, small=False):
+    """small=True (quick tier): at most 8 interior vertices / 44 faces, so that certificates stay small"""
     nb = nb or rng.randint(3, 40)
     mode = mode or rng.choice(["circle", "square", "custom"])
     cotan = (rng.random() < 0.4) if cotan is None else cotan
-    for _ in range(60):
+    max_f, max_v, max_i, max_ic = (44 + nb, 60, 8, 5) if small else (72, 56, 26, 9)
+    for _ in range(80):
         kind = None
         edits = None
         lift = rng.random() < 0.4
@@ -70,9 +75,12 @@ def gen_disk_case(rng, nb=None, mode=None, cotan=None, small=False):
                 kind, edits = "fan", rng.choice([0, 0, 1, 2])
             edits = edits if edits is not None else rng.choice([0, 1, 2, 3, 5])
         if small:
-            edits = rng.choice([0, 1, 2])
+            if kind is None:
+                kind = rng.choice(["chords", "fan", "wheel", "chords", "fan", "grid", "delaunay"] if nb <= 16 else ["chords", "fan", "chords", "fan", "wheel"])
+            if edits is None:
+                edits = rng.choice([0, 1, 2, 3, 4])
         kind, pts, faces = G.make_disk(rng, nb, kind=kind, n_edits=edits, planar_valid=cotan)
-        if len(faces) > 72 or len(pts) > 56:
+        if len(faces) > max_f or len(pts) > max_v:
             continue
         verts, fs = G.finish(rng, pts, faces, lift=lift)
         if not O.is_disk(len(verts), fs):
@@ -80,35 +88,91 @@ def gen_disk_case(rng, nb=None, mode=None, cotan=None, small=False):
         if cotan and not G.nondegenerate(verts, fs, eps=0.05):
             continue
         onb = set(G.border_cycle(fs)[0])
-        if cotan and len(verts) - len(onb) > 9:
-            continue
-        if len(verts) - len(onb) > 26:
+        if len(verts) - len(onb) > (max_ic if cotan else max_i):
             continue
         break
     else:
         raise RuntimeError("generator could not produce a disk (nb=%s)" % nb)
     case = {"verts": verts, "faces": fs, "mode": mode, "cotan": bool(cotan), "kind": kind, "disk": True}
-    if mode == "custom":
-        cyc = G.border_cycle(fs)[0]
-        k0 = rng.randrange(len(cyc))
-        cyc = cyc[k0:] + cyc[:k0]
-        case["cycle"] = cyc
-        case["poly"] = G.convex_polygon(rng, len(cyc))
+    add_polygon(rng, case)
+    return case
+
+
+def add_polygon(rng, case):
+    cyc = G.border_cycle(case["faces"])[0]
+    k0 = rng.randrange(len(cyc))
+    cyc = cyc[k0:] + cyc[:k0]
+    case["cycle"] = cyc
+    case["poly"] = G.convex_polygon(rng, len(cyc))
+
+
+MODES = ("circle", "square", "custom")
+
+
+def gen_sequence_case(rng, small=True):
+    """several embeddings one after the other on ONE mesh object: cotangent then uniform, uniform then cotangent,
+    attributes computed persistently beforehand, changing boundary modes.  Geometry with obtuse / thin triangles so
+    that cotangent and uniform weights give visibly different embeddings."""
+    nb = rng.randint(4, 14)
+    for _ in range(80):
+        kind, pts, faces = G.make_disk(rng, nb, kind=rng.choice(["fan", "wheel", "chords", "delaunay"]),
+                                       n_edits=rng.choice([1, 2, 3, 4]), planar_valid=True)
+        verts, fs = G.finish(rng, pts, faces, lift=rng.random() < 0.5)
+        if not O.is_disk(len(verts), fs) or not G.nondegenerate(verts, fs, eps=0.05):
+            continue
+        ni = len(verts) - len(G.border_cycle(fs)[0])
+        if 1 <= ni <= 5 and len(fs) <= 40:
+            break
+    else:
+        raise RuntimeError("generator could not produce a sequence disk")
+    case = {"verts": verts, "faces": fs, "mode": "circle", "cotan": False, "kind": "seq-" + kind, "disk": True}
+    add_polygon(rng, case)
+    pat = rng.choice(["cot-uni", "uni-cot-uni", "pre-cotangent", "pre-angles", "random"])
+    m = lambda: rng.choice(MODES)
+    if pat == "cot-uni":
+        seq = [{"mode": m(), "cotan": True}, {"mode": m(), "cotan": False}]
+    elif pat == "uni-cot-uni":
+        seq = [{"mode": m(), "cotan": False}, {"mode": m(), "cotan": True}, {"mode": m(), "cotan": False}]
+    elif pat == "pre-cotangent":
+        seq = [{"mode": m(), "cotan": False, "pre": "cotangent"}, {"mode": m(), "cotan": True}]
+    elif pat == "pre-angles":
+        seq = [{"mode": m(), "cotan": False, "pre": "angles"}, {"mode": m(), "cotan": True}, {"mode": m(), "cotan": False}]
+    else:
+        seq = [{"mode": m(), "cotan": rng.random() < 0.5, "pre": rng.choice([None, None, "cotangent", "angles"])}
+               for _ in range(rng.randint(2, 4))]
+    case["seq"] = seq
+    case["pattern"] = pat
     return case
 
 
 def gen_cases(ctx):
     rng = ctx.rng
     quick = ctx.tier == "quick"
-    rounds = 1 if quick else 18
     cases = []
-    for rd in range(rounds):
+    if quick:
+        # every border length 3..40, two of the three boundary modes each (rotating with the seed), small interiors
+        rot = rng.randrange(3)
         for nb in range(3, 41):
-            for mode in ("circle", "square", "custom"):
+            cases.append(gen_disk_case(rng, nb=nb, mode=MODES[(nb + rot) % 3], cotan=False, small=True))
+            cases.append(gen_disk_case(rng, nb=nb, mode=MODES[(nb + rot + 1) % 3], cotan=(nb % 2 == 0), small=True))
+        for _ in range(10):
+            cases.append(gen_disk_case(rng, small=True))
+        for _ in range(12):
+            cases.append(gen_sequence_case(rng))
+        for _ in range(8):
+            k, v, f = G.non_disk(rng)
+            cases.append({"verts": v, "faces": f, "mode": rng.choice(["circle", "square"]), "cotan": rng.random() < 0.3,
+                          "kind": k, "disk": False})
+        return cases
+    for rd in range(18):
+        for nb in range(3, 41):
+            for mode in MODES:
                 cases.append(gen_disk_case(rng, nb=nb, mode=mode, cotan=False))
             cases.append(gen_disk_case(rng, nb=nb, cotan=True))
-        for _ in range(48):
+        for _ in range(40):
             cases.append(gen_disk_case(rng))
+        for _ in range(24):
+            cases.append(gen_sequence_case(rng))
         for _ in range(16):
             k, v, f = G.non_disk(rng)
             cases.append({"verts": v, "faces": f, "mode": rng.choice(["circle", "square"]), "cotan": rng.random() < 0.3,
@@ -307,7 +371,7 @@ def renumber(case, faces):
     c = dict(case)
     c["verts"] = [case["verts"][v] for v in used]
     c["faces"] = [[m[v] for v in f] for f in faces]
-    if case["mode"] == "custom":
+    if "cycle" in case:
         cyc = G.border_cycle(c["faces"])
         if len(cyc) != 1 or cyc[0] is None:
             return None
@@ -380,7 +444,9 @@ def run(ctx):
                 "triangulations; random face / edge / border-edge splits and edge flips; random renumbering, face "
                 "rotation, orientation reversal, 3D lift) x boundary circle/square/custom convex polygon x uniform / "
                 "cotangent weights, both storages on every case; plus non-disks (sphere, annulus, torus, two components, "
-                "isolated vertex). Non-trivial = an accepted disk with at least one interior vertex; distinct = by "
+                "isolated vertex); plus SEQUENCES of 2-4 embeddings on ONE mesh object (cotangent then uniform, uniform then cotangent, "
+                "cotan/angles attributes computed persistently beforehand, changing boundary modes), every step judged against "
+                "the weights it asked for. Quick tier: interiors <= 8 vertices; thorough: up to 26. Non-trivial = an accepted disk with at least one interior vertex; distinct = by "
                 "canonical JSON of (vertices, faces, mode, weights, polygon)")
     ctx.assumptions += [
         "scipy.sparse.linalg.spsolve is not modelled: the theorems quantify over every solution of the partitioned system; "
@@ -403,20 +469,44 @@ def run(ctx):
             if f.endswith(".json"):
                 corpus.append(json.load(open(os.path.join(cdir, f))))
     cases = corpus + gen_cases(ctx)
-    ctx.log("%d cases (%d from the corpus); running mouette" % (len(cases), len(corpus)))
+    ctx.log("%d cases (%d from the corpus, %d sequences on one mesh object); running mouette"
+            % (len(cases), len(corpus), sum(1 for c in cases if "seq" in c)))
     obs = run_impl_cases([strip(c) for c in cases])
     ctx.log("implementation done; oracle + certificates")
 
+    # one unit = one embedding request with what it returned; a sequence case gives one unit per step, each judged
+    # against the weights / boundary mode that step ASKED for
+    units = []
+    for ci, (c, o) in enumerate(zip(cases, obs)):
+        if "seq" in c:
+            steps = o.get("steps", [])
+            for k, st in enumerate(c["seq"]):
+                view = dict(c, mode=st["mode"], cotan=st["cotan"])
+                ob = steps[k] if k < len(steps) else {"status": "error:no observation for this step"}
+                units.append((view, ob, ci, k))
+        else:
+            units.append((c, o, ci, None))
+
     fails = []
     terms, term_idx = [], []
-    for idx, (c, o) in enumerate(zip(cases, obs)):
+    for ui, (c, o, ci, step) in enumerate(units):
         fl = O.oracle(c, o)
         for key, msg in fl:
-            fails.append((idx, key, msg))
+            if step is not None:
+                key = "seq/" + key
+                msg = "step %d of %s on one mesh object (%s, %s weights asked): %s" % (
+                    step, json.dumps([[s_["mode"], "cotan" if s_["cotan"] else "uniform", s_.get("pre")] for s_ in cases[ci]["seq"]]),
+                    c["mode"], "cotangent" if c["cotan"] else "uniform", msg)
+            fails.append((ui, key, msg))
         st = o.get("status", "error")
         ctx.count("status " + st.split(":")[0])
         ctx.count("mode %s / %s" % (c["mode"], "cotan" if c["cotan"] else "uniform"))
         ctx.count("seed " + str(c.get("kind")))
+        if step is not None:
+            ctx.count("sequence step %d%s" % (step, (" after persistent " + cases[ci]["seq"][step]["pre"]) if cases[ci]["seq"][step].get("pre") else ""))
+            if step > 0:
+                prev = cases[ci]["seq"][step - 1]
+                ctx.count("sequence: %s asked after %s on the same mesh" % ("cotan" if c["cotan"] else "uniform", "cotan" if prev["cotan"] else "uniform"))
         nontrivial = False
         if c.get("disk") and st == "ok":
             nb, ni = describe(c)
@@ -433,19 +523,24 @@ def run(ctx):
                 ctx.count("has a vertex of valence >= 8")
             ctx.count("fold-free promised: " + str(o.get("_guard")))
             nontrivial = ni >= 1
-        ctx.case_seen([c["verts"], c["faces"], c["mode"], c["cotan"], c.get("poly")], nontrivial=nontrivial,
+        ctx.case_seen([c["verts"], c["faces"], c["mode"], c["cotan"], c.get("poly") if c["mode"] == "custom" else None,
+                       cases[ci].get("seq"), step], nontrivial=nontrivial,
                       sample={"mode": c["mode"], "cotan": c["cotan"], "n_vertices": len(c["verts"]), "faces": c["faces"][:6],
                               "status": st, "uv_vertex": (o.get("uv_vertex") or [])[:4]})
         if st == "rejected":
             terms.append(case_term(c, o, None))
-            term_idx.append(idx)
+            term_idx.append(ui)
         elif st == "ok":
-            cert = certificate(c, o)
+            try:
+                cert = certificate(c, o)
+            except Exception as ex:      # e.g. the implementation did not leave the cotangents it was asked to use
+                ctx.count("no certificate: %s" % type(ex).__name__)
+                continue
             if cert is None:
                 ctx.count("interior system singular (no certificate)")
                 continue
             terms.append(case_term(c, o, cert))
-            term_idx.append(idx)
+            term_idx.append(ui)
     ctx.obligation("oracle: border placement, weighted-average residual, strict common orientation, outputs agree, gate - on every case",
                    "oracle-on-implementation", True, "%d failing observations" % len(fails))
 
@@ -460,31 +555,65 @@ def run(ctx):
 
     # verdicts
     reported = set()
-    fails.sort(key=lambda t: (len(cases[t[0]]["faces"]), t[0]))      # start from the smallest failing case of each class
-    t_search = __import__("time").time()
-    for idx, key, msg in fails:
+    fails.sort(key=lambda t: (units[t[0]][3] is None, len(units[t[0]][0]["faces"]), t[0]))   # sequences first, then small cases
+    t_search = time.time()
+    for ui, key, msg in fails:
         if key in reported:
             continue
         reported.add(key)
-        case = cases[idx]
+        view, ob, ci, step = units[ui]
         if ctx.known(key):
             ctx.report_known(key, ctx.known(key)["what"])
             continue
-        small = case
-        if case.get("disk") and key != "error":
+        if step is not None:
+            small = cases[ci]
+            if time.time() - t_search < 25:
+                small = shrink_sequence(small, step, key)
+            ctx.violation("Tutte embedding: " + msg, {"case": strip(small), "class": key}, key=key)
+            continue
+        small = view
+        if view.get("disk") and key != "error":
             try:
-                if __import__("time").time() - t_search < 25:
-                    small = shrink(case, key, budget=8)
+                if time.time() - t_search < 25:
+                    small = shrink(view, key, budget=8)
             except Exception as ex:  # shrinking is best effort
                 ctx.log("shrink failed: %r" % ex)
-        ob = core.run_impl("vf.impl.c17_driver", {"cases": [strip(small)]}, timeout=300)["obs"][0]
-        fl = [m for k, m in O.oracle(small, ob) if k == key]
+        ob2 = core.run_impl("vf.impl.c17_driver", {"cases": [strip(small)]}, timeout=300)["obs"][0]
+        fl = [m for k, m in O.oracle(small, ob2) if k == key]
         ctx.violation("Tutte embedding: " + (fl[0] if fl else msg), {"case": strip(small), "class": key}, key=key)
     if bad and not fails:
-        ctx.notes.append("model and implementation disagree on cases %s but the oracle accepts the implementation's outputs" % bad[:8])
+        ctx.notes.append("model and implementation disagree on units %s but the oracle accepts the implementation's outputs" % bad[:8])
         for i in bad[:3]:
-            c = cases[i]
-            ctx.log("disagreement on case %d: mode=%s cotan=%s nv=%d nf=%d status=%s" % (i, c["mode"], c["cotan"], len(c["verts"]), len(c["faces"]), obs[i].get("status")))
+            c, o, ci, step = units[i]
+            ctx.log("disagreement on unit %d (case %d, step %s): mode=%s cotan=%s nv=%d nf=%d status=%s"
+                    % (i, ci, step, c["mode"], c["cotan"], len(c["verts"]), len(c["faces"]), o.get("status")))
+
+
+def seq_failures(case, ob):
+    """(step, key, message) for every failing step of a sequence case"""
+    out = []
+    steps = ob.get("steps", [])
+    for k, st in enumerate(case["seq"]):
+        view = dict(case, mode=st["mode"], cotan=st["cotan"])
+        o = steps[k] if k < len(steps) else {"status": "error:no observation for this step"}
+        for key, msg in O.oracle(view, o):
+            out.append((k, "seq/" + key, msg))
+    return out
+
+
+def shrink_sequence(case, step, key):
+    """keep only the steps needed for the failure: try (culprit, failing) pairs and then the failing step alone"""
+    seq = case["seq"]
+    cands = [[seq[j], seq[step]] for j in range(step)] + [seq[:step + 1]]
+    for cand in cands:
+        c2 = dict(case, seq=cand)
+        try:
+            ob = core.run_impl("vf.impl.c17_driver", {"cases": [strip(c2)]}, timeout=300)["obs"][0]
+        except Exception:
+            continue
+        if any(k == len(cand) - 1 and ky == key for k, ky, _ in seq_failures(c2, ob)):
+            return c2
+    return case
 
 
 def replay(ctx, data):
@@ -493,11 +622,17 @@ def replay(ctx, data):
         return 1
     case = data["case"]
     ob = core.run_impl("vf.impl.c17_driver", {"cases": [strip(case)]}, timeout=300)["obs"][0]
-    fl = O.oracle(case, ob)
-    print("status:", ob.get("status"))
-    if ob.get("status") == "ok":
-        print("border (as partitioned):", ob["bnd"])
-        print("uv per vertex:", json.dumps(ob["uv_vertex"]))
+    if "seq" in case:
+        print("sequence on one mesh object:", json.dumps(case["seq"]))
+        fl = [("step %d %s" % (k, ky), m) for k, ky, m in seq_failures(case, ob)]
+        for k, st in enumerate(ob.get("steps", [])):
+            print("step %d status: %s" % (k, st.get("status")), "uv per vertex:", json.dumps(st.get("uv_vertex")))
+    else:
+        fl = O.oracle(case, ob)
+        print("status:", ob.get("status"))
+        if ob.get("status") == "ok":
+            print("border (as partitioned):", ob["bnd"])
+            print("uv per vertex:", json.dumps(ob["uv_vertex"]))
     for k, m in fl:
         print("FAILS [%s]: %s" % (k, m))
     if not fl:
